@@ -5,6 +5,7 @@
 mod c01;
 mod c03;
 mod c04;
+mod c05;
 mod c06;
 mod c16;
 mod c17;
@@ -29,6 +30,7 @@ fn main() {
                 "C01" | "C02" => c01::search(prop),
                 "C03" => c03::search(obl),
                 "C04" => c04::search(obl),
+                "C05" => c05::search(obl),
                 "C06" => c06::search(obl),
                 _ => { eprintln!("no witness search for {prop}"); std::process::exit(2) }
             };
@@ -46,6 +48,7 @@ fn main() {
                 ("C02", Some(i)) => c01::check_one("C02", &i),
                 ("C03", Some(i)) => c03::check_one(&i),
                 ("C04", Some(i)) => c04::check_one(&i),
+                ("C05", Some(i)) => c05::check_one(&i),
                 ("C06", Some(i)) => c06::check_one(&i),
                 _ => { println!("REPLAY: nothing to re-run (no concrete input in file)"); std::process::exit(0) }
             };
